@@ -682,6 +682,11 @@ class SequenceOfEncoder(AbstractItemEncoder):
             if inconsistency:
                 raise inconsistency
 
+            if not value.isValue:
+                # a schema object (never filled, or after reset()) or one
+                # holding placeholders is not an empty value
+                raise error.PyAsn1Error('%r is not a value' % (value,))
+
         else:
             asn1Spec = asn1Spec.componentType
 
